@@ -56,6 +56,7 @@ pub struct Profile {
     pub p_shared_prefix: u32,
     pub p_twin: u32,
     pub p_sibling: u32,
+    pub w_record: u32,
     pub user_ctx: bool,
 }
 
@@ -106,6 +107,7 @@ impl Profile {
             p_shared_prefix: 12,
             p_twin: 0,
             p_sibling: 0,
+            w_record: 3,
             user_ctx: false,
         }
     }
@@ -126,6 +128,7 @@ impl Profile {
             }
             "fields" => {
                 p.name = "fields";
+                p.w_record = 16;
                 p.p_sibling = 70;
                 p.w_field = 30;
                 p.w_lit = 20;
@@ -140,6 +143,7 @@ impl Profile {
             }
             "types" => {
                 p.name = "types";
+                p.w_record = 12;
                 p.p_sibling = 50;
                 p.w_field = 34;
                 p.w_lit = 14;
@@ -173,6 +177,7 @@ impl Profile {
             }
             "memo" => {
                 p.name = "memo";
+                p.w_record = 5;
                 p.p_check = 70;
                 p.p_memoize = 110;
                 p.p_shared_prefix = 130;
@@ -217,6 +222,7 @@ impl Profile {
             }
             "pos" => {
                 p.name = "pos";
+                p.w_record = 8;
                 p.p_sibling = 30;
                 p.p_shared_prefix = 50;
                 p.p_memoize = 70;
@@ -230,6 +236,7 @@ impl Profile {
             }
             "hooks" => {
                 p.name = "hooks";
+                p.w_record = 6;
                 p.p_check = 110;
                 p.k_extern = 5;
                 p.k_charclass = 4;
@@ -244,6 +251,7 @@ impl Profile {
             }
             "include" => {
                 p.name = "include";
+                p.w_record = 8;
                 p.p_sibling = 130;
                 p.w_include = 26;
                 p.w_field = 22;
@@ -257,6 +265,7 @@ impl Profile {
             }
             "mixed" => {
                 p.name = "mixed";
+                p.w_record = 7;
                 p.p_sibling = 40;
                 p.p_twin = 40;
                 p.p_memoize = 70;
@@ -583,8 +592,56 @@ impl<'a, 'b> Gen<'a, 'b> {
         }
         let p = self.prof.clone();
         let leaf_w = p.w_lit + p.w_range + p.w_anon + p.w_field;
-        let w = [leaf_w, p.w_seq * 2, p.w_choice, p.w_opt, p.w_star, p.w_plus, p.w_not, p.w_and, p.w_include, p.w_group];
+        let rec_w = if ctx.mode == Mode::Named && !ctx.in_look { p.w_record } else { 0 };
+        let w = [leaf_w, p.w_seq * 2, p.w_choice, p.w_opt, p.w_star, p.w_plus, p.w_not, p.w_and, p.w_include, p.w_group, rec_w];
         match self.src.weighted(&w) {
+            10 => {
+                // a "record": several DISTINCT named fields separated by literals, plain or under [] / {} / {}+
+                // (the multi-field forms of the optional, closure and sequence templates)
+                let nf = 2 + self.src.weighted(&[6, 3, 1]);
+                let mut parts = vec![];
+                let mut c = ctx;
+                if self.src.chance(170) {
+                    parts.push(self.nonempty_literal());
+                    c.left = false;
+                }
+                let mut used: Vec<String> = vec![];
+                for k in 0..nf {
+                    let mut name = self.field_name();
+                    let mut guard = 0;
+                    while used.contains(&name) && guard < 8 {
+                        let i = self.src.pick(self.field_pool.len());
+                        name = self.field_pool[i].clone();
+                        guard += 1;
+                    }
+                    if used.contains(&name) {
+                        continue;
+                    }
+                    used.push(name.clone());
+                    if !self.used_fields.contains(&name) {
+                        self.used_fields.push(name.clone());
+                    }
+                    let typ = if self.src.chance(p.p_char_field) { "char".to_string() } else { self.ref_target(c, false).unwrap_or_else(|| "char".to_string()) };
+                    let boxed = typ != "char" && self.src.chance(p.p_boxed);
+                    let r = Expr::Ref { field: FieldName::Named(name), boxed, typ };
+                    if self.is_nonnull(&r) {
+                        c.left = false;
+                    }
+                    parts.push(r);
+                    if k + 1 < nf || self.src.chance(128) {
+                        parts.push(self.nonempty_literal());
+                        c.left = false;
+                    }
+                }
+                let body = Expr::Seq(parts);
+                match self.src.weighted(&[3, 5, 4, 2]) {
+                    0 => body,
+                    1 => Expr::Opt(Box::new(body)),
+                    2 if self.is_nonnull(&body) => Expr::Star(Box::new(body)),
+                    3 if self.is_nonnull(&body) => Expr::Plus(Box::new(body)),
+                    _ => Expr::Opt(Box::new(body)),
+                }
+            }
             0 => self.gen_leaf(ctx),
             1 => {
                 let n = 2 + self.src.weighted(&[8, 5, 2, 1]);
